@@ -18,6 +18,7 @@
 
 
 from nanoemoji.glyph import glyph_name
+from typing import Mapping
 
 
 DEFAULT_GSUB_FEATURE_TAG = "ccmp"
@@ -25,6 +26,9 @@ DEFAULT_GSUB_FEATURE_TAG = "ccmp"
 
 def generate_fea(rgi_sequences, feature_tag=DEFAULT_GSUB_FEATURE_TAG):
     # Generate feature with ligature lookup for multi-codepoint RGIs
+    # rgi_sequences may be a mapping of codepoint sequence => glyph name, for
+    # when a custom glyphmap_generator assigned its own names
+    custom_names = rgi_sequences if isinstance(rgi_sequences, Mapping) else {}
     rules = []
     rules.append("languagesystem DFLT dflt;")
     rules.append("languagesystem latn dflt;")
@@ -34,8 +38,8 @@ def generate_fea(rgi_sequences, feature_tag=DEFAULT_GSUB_FEATURE_TAG):
     for rgi in sorted(rgi_sequences):
         if len(rgi) == 1:
             continue
-        glyphs = [glyph_name(cp) for cp in rgi]
-        target = glyph_name(rgi)
+        glyphs = [custom_names.get((cp,)) or glyph_name(cp) for cp in rgi]
+        target = custom_names.get(tuple(rgi)) or glyph_name(rgi)
         rules.append("  sub %s by %s;" % (" ".join(glyphs), target))
 
     rules.append(f"}} {feature_tag};")
